@@ -1,6 +1,8 @@
 """C08 — normal forms and contraction-order optimisation preserve value."""
 import itertools
 
+import os
+
 import numpy as np
 from hypothesis import strategies as st
 
@@ -112,6 +114,23 @@ class C08(Prop):
         node, route = case["ast"], case["route"]
         stt.count("route:" + route)
         stt.count("sem:" + "/".join(case["sem"]))
+        import sys
+
+        # apply_optimizer / unfold do not terminate on some terms (recorded as observed behaviour); the generated terms need
+        # a few dozen frames, so a lower limit only makes those cases fail faster
+        old_limit = sys.getrecursionlimit()
+        sys.setrecursionlimit(min(old_limit, int(os.environ.get("VERIF_C08_RECURSION", "420"))))
+        try:
+            return self._check_ast(case, stt, node, route)
+        finally:
+            sys.setrecursionlimit(old_limit)
+
+    def _check_ast(self, case, stt, node, route):
+        import funsor.interpretations as I
+        from funsor.interpreter import reinterpret
+        from funsor.optimizer import apply_optimizer, unfold
+        from vf.build import build
+
         try:
             if route == "normalize":
                 with I.normalize:
